@@ -11,3 +11,6 @@ import TssVerif.Props.C12
 import TssVerif.Props.GenObligations
 import TssVerif.Props.C10
 import TssVerif.Props.C11
+import TssVerif.Props.C07
+import TssVerif.Props.C08
+import TssVerif.Props.C09
